@@ -3,12 +3,15 @@ C15 — `.bst` source parsing recovers exactly the program that was written.
 
 Property theorems only.  Model of the code: `Model/BstParse.lean` (+ `Model/Scanner.lean`,
 `Model/Lines.lean`); what the reader has to agree with: `Spec/Bst.lean` (abstract syntax,
-`print` with lay-outs, `WFProg`, `CommentAt`, the reference reading `read` of lexeme sequences);
-helper lemmas: `Lemmas/Scanner.lean`, `Lemmas/Bst*.lean`.
+`print` with lay-outs, `WFProg`, `CommentAt`, the reference readings `read` / `readBad` of lexeme
+sequences, `lexBad`); helper lemmas: `Lemmas/Scanner.lean`, `Lemmas/Bst*.lean`.
 -/
 import PybtexModel.Lemmas.BstLocatedSrc
 import PybtexModel.Lemmas.BstComment
 import PybtexModel.Lemmas.BstEntry
+import PybtexModel.Lemmas.BstLexical
+import PybtexModel.Lemmas.BstEq
+import PybtexModel.Lemmas.BstStream
 
 namespace Pybtex.Props
 open Pybtex Pybtex.Bst Pybtex.Scanner
@@ -185,7 +188,7 @@ theorem C15_malformed_located_nonvacuous :
 /-- Unterminated string literal, at the level of the text handed to the parser: when the scanner,
 inside a group, reaches a `"` after which no further `"` occurs, it reports
 "name or string or integer or '{' or '}' expected" on the line it is on (the line of the quote).
-(The end-to-end form, from a printed source, is not proved; see the report.) -/
+(The end-to-end form, from a printed source with any lay-out, is `C15_lexical_error_located`.) -/
 theorem C15_unterminated_string_partial (fuel : Nat) (w J : Str) (ln : Nat)
     (hw : ∀ c ∈ w, isWs c = true ∧ c ≠ '\r') (hJ : '"' ∉ J) :
     parseGroupF (fuel + 1) ⟨w ++ '"' :: J, ln⟩
@@ -249,5 +252,166 @@ theorem C15_entry_points_agree_neg :
     parseStream "FUNCTION {f} {\"a \nb\"}".toList
       = .ok [⟨"FUNCTION".toList, [[.name "f".toList], [.str "a\nb".toList]]⟩] := by
   refine ⟨by decide, by rfl, by rfl⟩
+
+/-! ### Lexically broken source -/
+
+/-- **Text that cannot begin a token is rejected on the line where it starts.**  The source is a
+well-formed prefix printed with ANY lay-out, followed by arbitrary text `T` with `lexBad T`: a `#`
+with no (ASCII) integer behind it — `#`, `#-`, `#+1`, `#a`, `#٣` — or a `"` that is never closed,
+followed by anything at all.  `tailLine ls gaps` is 1 + the number of line breaks of the source in
+front of `T`.
+
+1. inside an argument group — after complete tokens `ts` of the group and at any depth of further
+   open function literals `rest`: "name or string or integer or '{' or '}' expected";
+2. where a command is expected: "BST command expected";
+3. where the `{` of an argument group is expected: "'{' expected". -/
+theorem C15_lexical_error_located (p : Program) (hp : WFProg p) (gaps : List Gap) (T : Str)
+    (hT : lexBad T = true) :
+    (∀ (name : Str) (gs : List (List Tok)) (j : Nat) (ts : List Tok) (rest : List (List Tok)),
+      wfName name = true → cmdArity name = some (gs.length + (j + 1)) → gs.all wfToks = true →
+      wfToks ts = true → rest.all wfToks = true →
+      parseString (render none
+          (Program.lexemes p ++ .word name :: (groupsLexemes gs ++ openLexemes (ts :: rest))) gaps ++ T)
+        = .error (.tokenRequired "name or string or integer or '{' or '}'".toList (tailLine
+            (Program.lexemes p ++ .word name :: (groupsLexemes gs ++ openLexemes (ts :: rest))) gaps))) ∧
+    parseString (render none (Program.lexemes p) gaps ++ T)
+      = .error (.tokenRequired "BST command".toList (tailLine (Program.lexemes p) gaps)) ∧
+    (∀ (name : Str) (gs : List (List Tok)) (j : Nat),
+      wfName name = true → cmdArity name = some (gs.length + (j + 1)) → gs.all wfToks = true →
+      parseString (render none (Program.lexemes p ++ .word name :: groupsLexemes gs) gaps ++ T)
+        = .error (.tokenRequired "'{'".toList
+            (tailLine (Program.lexemes p ++ .word name :: groupsLexemes gs) gaps))) :=
+  ⟨fun name gs j ts rest h1 h2 h3 h4 h5 =>
+     located_lexical_group p name gs j ts rest gaps T hp h1 h2 h3 h4 h5 hT,
+   located_lexical_command p gaps T hp hT,
+   fun name gs j h1 h2 h3 => located_lexical_brace p name gs j gaps T hp h1 h2 h3 hT⟩
+
+/-- the texts of the review are `lexBad`, the ones that do begin a token are not; concrete
+instances of the three cases with the offence on line 3 (kernel evaluation); the reference
+reading `readBad` of the lexeme prefix names the same place -/
+theorem C15_lexical_error_located_nonvacuous :
+    lexBad "#".toList = true ∧ lexBad "#-".toList = true ∧ lexBad "#+1 }".toList = true ∧
+    lexBad "#a".toList = true ∧ lexBad "#\u0663}".toList = true ∧ lexBad "\"x } READ".toList = true ∧
+    lexBad "#1".toList = false ∧ lexBad "#-2x".toList = false ∧ lexBad "\"x\" }".toList = false ∧
+    lexBad "'".toList = false ∧
+    parseString "READ\nFUNCTION {f} { a { #1\n  #+1 } }".toList
+      = .error (.tokenRequired "name or string or integer or '{' or '}'".toList 3) ∧
+    parseString "READ %\n\n \"abc\n SORT".toList = .error (.tokenRequired "BST command".toList 3) ∧
+    parseString "MACRO {a}\n\n#- {b}".toList = .error (.tokenRequired "'{'".toList 3) ∧
+    (match readBad [.word "READ".toList, .word "FUNCTION".toList, .lb, .word "f".toList, .rb, .lb,
+        .word "a".toList, .lb, .int 1] with
+      | .lexicalError 9 => True | _ => False) ∧
+    (match readBad [.word "READ".toList] with | .badCommand 1 => True | _ => False) ∧
+    (match readBad [.word "MACRO".toList, .lb, .word "a".toList, .rb] with
+      | .braceExpected 4 => True | _ => False) := by
+  refine ⟨by decide, by decide, by decide, by decide, by decide, by decide, by decide, by decide,
+    by decide, by decide, by rfl, by rfl, by rfl, by exact True.intro, by exact True.intro,
+    by exact True.intro⟩
+
+/-- **An integer literal with more digits than the interpreter converts** (`intDigitLimit`;
+`int()` raises `ValueError`) inside a group is rejected with a syntax error on its line (the
+repaired `parse_group`, `proposed_fixes/C15-3`); `T2` is whatever follows the literal. -/
+theorem C15_int_too_long_located (p : Program) (hp : WFProg p) (gaps : List Gap) (name : Str)
+    (gs : List (List Tok)) (j : Nat) (ts : List Tok) (rest : List (List Tok)) (v : Int) (T2 : Str)
+    (hname : wfName name = true) (har : cmdArity name = some (gs.length + (j + 1)))
+    (hgs : gs.all wfToks = true) (hts : wfToks ts = true) (hrest : rest.all wfToks = true)
+    (hv : wfInt v = false) (hT2 : headSat isDigit T2 = false) :
+    parseString (render none
+        (Program.lexemes p ++ .word name :: (groupsLexemes gs ++ openLexemes (ts :: rest))) gaps
+        ++ (intText v ++ T2))
+      = .error (.syntaxError "integer literal too long".toList (tailLine
+          (Program.lexemes p ++ .word name :: (groupsLexemes gs ++ openLexemes (ts :: rest))) gaps)) :=
+  located_int_too_long p name gs j ts rest gaps v T2 hp hname har hgs hts hrest hv hT2
+
+/-- the limit is the running interpreter's (regenerated on every run); 4300 digits are well-formed,
+4301 are not -/
+theorem C15_int_too_long_located_nonvacuous :
+    Gen.intMaxStrDigits = intDigitLimit ∧ wfInt (10 ^ 4299) = true ∧ wfInt (-(10 ^ 4299)) = true ∧
+    wfInt (10 ^ 4300) = false ∧ wfInt (-(10 ^ 4300)) = false := by
+  refine ⟨int_limit, by decide +kernel, by decide +kernel, by decide +kernel, by decide +kernel⟩
+
+/-! ### Equality of parse results -/
+
+/-- **The `==` of parse results** (`progEq`: `list.__eq__` over `Variable.__eq__` = same class and
+same value, `Function.__eq__` = same class and equal bodies) **is structural equality**, and on
+printed well-formed programs it holds exactly when the same program was written: two sources
+compare equal iff they spell the same program, whatever their lay-outs. -/
+theorem C15_equality :
+    (∀ p q : Program, progEq p q = true ↔ p = q) ∧
+    (∀ (p q : Program) (L₁ L₂ : Layout), WFProg p → WFProg q →
+      (parseString (print p L₁) = parseString (print q L₂) ↔ p = q) ∧
+      ∃ a b, parseString (print p L₁) = .ok a ∧ parseString (print q L₂) = .ok b ∧
+        (progEq a b = true ↔ p = q) ∧ progEq a a = true) := by
+  refine ⟨progEq_iff, ?_⟩
+  intro p q L₁ L₂ hp hq
+  rw [C15_roundtrip p L₁ hp, C15_roundtrip q L₂ hq]
+  refine ⟨by simp, p, q, rfl, rfl, progEq_iff p q, (progEq_iff p p).2 rfl⟩
+
+/-- tokens that differ in one leaf, in the class of a leaf, or in a nested body are unequal -/
+theorem C15_equality_nonvacuous :
+    tokEq (.int 1) (.int 2) = false ∧ tokEq (.name "x".toList) (.quoted "x".toList) = false ∧
+    tokEq (.str "1".toList) (.int 1) = false ∧
+    tokEq (.fn [.int 1, .fn [.str "a".toList]]) (.fn [.int 1, .fn [.str "b".toList]]) = false ∧
+    tokEq (.fn [.int 1, .fn [.str "a".toList]]) (.fn [.int 1, .fn [.str "a".toList]]) = true ∧
+    progEq [⟨"READ".toList, []⟩] [⟨"read".toList, []⟩] = false := by
+  refine ⟨by decide, by decide, by decide, by decide, by decide, by decide⟩
+
+/-! ### Command names are ASCII words -/
+
+/-- **Only the ten commands, in ASCII letter case, are commands.**  A name the arity table
+accepts consists of ASCII letters only and its ASCII upper-casing is an entry of the table; every
+command of every ACCEPTED source is such a name and carries exactly that entry's number of
+argument groups.  (The pinned code used `str.upper()`: `ſORT`, `ıTERATE {f}` were accepted;
+`proposed_fixes/C15-2`.) -/
+theorem C15_command_ascii :
+    (∀ (n : Str) (k : Nat), cmdArity n = some k →
+      (upper n, k) ∈ commandTable ∧ ∀ c ∈ n, isAlpha c = true) ∧
+    (∀ (src : Str) (p : Program), parseString src = .ok p →
+      ∀ c ∈ p, cmdArity c.name = some c.groups.length) := by
+  refine ⟨cmdArity_ascii, ?_⟩
+  intro src p h
+  exact parseF_arity _ _ _ h
+
+/-- look-alikes that `str.upper()` / `\d` would accept are rejected, on the right line -/
+theorem C15_command_ascii_nonvacuous :
+    cmdArity "\u017fORT".toList = none ∧ cmdArity "\u0131TERATE".toList = none ∧
+    cmdArity "sOrT".toList = some 0 ∧
+    parseString "READ\n\u017fORT".toList = .error (.tokenRequired "BST command".toList 2) ∧
+    parseString "\u0131TERATE {f}".toList = .error (.tokenRequired "BST command".toList 1) ∧
+    parseString "FUNCTION {f}\n{#\u0663}".toList
+      = .error (.tokenRequired "name or string or integer or '{' or '}'".toList 2) ∧
+    parseString "FUNCTION {f} {#1\u0663}".toList
+      = .ok [⟨"FUNCTION".toList, [[.name "f".toList], [.int 1, .name "\u0663".toList]]⟩] := by
+  refine ⟨by decide, by decide, by decide, by rfl, by rfl, by rfl, by rfl⟩
+
+/-! ### The round trip through `parse_stream` and `parse_file` -/
+
+/-- **Printing any well-formed program and reading it back through `parse_stream` or `parse_file`
+is the identity as well**, for every lay-out whose line breaks are `\n` / `\r\n` (the only ones a
+text stream and universal-newlines reading recognise) — with or without blanks in front of the
+line ends, inside comments, after the last token: `line.rstrip()` only ever removes white space
+that stands outside the lexemes, because the string literals of a well-formed program do not span
+lines.  (No `noTrailingWs` proviso, unlike `C15_entry_points_agree_partial`.) -/
+theorem C15_roundtrip_entry_points (p : Program) (L : Layout) (hwf : WFProg p)
+    (hplain : plainBreaks (print p L) = true) :
+    parseStream (print p L) = .ok p ∧ parseFile (print p L) = .ok p ∧
+    parseStream (print p L) = parseString (print p L) :=
+  ⟨parseStream_print p L hwf hplain, parseFile_print p L hwf hplain,
+   by rw [parseStream_print p L hwf hplain, C15_roundtrip p L hwf]⟩
+
+namespace C15ex
+def lay2 : Layout :=
+  ⟨[[], [sp, nlc], [sp, sp], [sp, cr, nlc], [sp, cm, sp, nlc], [], [], [nlc], [], [sp, nlc], [sp]],
+   some ⟨"end  ".toList, by decide⟩⟩
+end C15ex
+
+/-- a lay-out with blanks in front of `\n`, of `\r\n`, of a comment and at the end of the text:
+plain line breaks, trailing white space, and the three entry points read the program back -/
+theorem C15_roundtrip_entry_points_nonvacuous :
+    WFProg C15ex.prog ∧ plainBreaks (print C15ex.prog C15ex.lay2) = true ∧
+    noTrailingWs (print C15ex.prog C15ex.lay2) = false ∧
+    parseStream (print C15ex.prog C15ex.lay2) = .ok C15ex.prog ∧
+    parseFile (print C15ex.prog C15ex.lay2) = .ok C15ex.prog := by
+  refine ⟨by decide, by decide +kernel, by decide +kernel, by rfl, by rfl⟩
 
 end Pybtex.Props
